@@ -189,12 +189,13 @@ import ctypes
 import struct
 
 _libm = ctypes.CDLL("libm.so.6")
-for _f in ("sqrt", "sin", "cos", "tan", "exp", "log", "fabs", "asin", "acos", "atan", "floor", "ceil", "round"):
+for _f in ("sqrt", "sin", "cos", "tan", "exp", "log", "fabs", "asin", "acos", "atan", "floor", "ceil", "round", "trunc", "sinh", "cosh", "tanh", "log1p",
+           "expm1", "cbrt", "exp2", "log2", "log10", "nearbyint", "rint", "asinh", "acosh", "atanh"):
     getattr(_libm, _f).restype = ctypes.c_double
     getattr(_libm, _f).argtypes = [ctypes.c_double]
     getattr(_libm, _f + "f").restype = ctypes.c_float
     getattr(_libm, _f + "f").argtypes = [ctypes.c_float]
-for _f in ("atan2", "pow", "fmod", "fmin", "fmax", "copysign"):
+for _f in ("atan2", "pow", "fmod", "fmin", "fmax", "copysign", "remainder", "hypot", "fdim"):
     getattr(_libm, _f).restype = ctypes.c_double
     getattr(_libm, _f).argtypes = [ctypes.c_double, ctypes.c_double]
     getattr(_libm, _f + "f").restype = ctypes.c_float
